@@ -417,7 +417,7 @@ def instLeafNode (k : Kind) (name : Nat) (kids : List Nat) (root : Bool) : Leaf 
   | .kind .document .none => k == .document
   | .kind .element .none => k == .element                   -- iter_children_or_self + isinstance
   | .kind .element .wild => k == .element                   -- '*' token: elements only
-  | .kind .element (.name n) => (k == .element || k == .attribute) && n == name   -- name test on the self axis
+  | .kind .element (.name n) => k == .element && n == name   -- name test on the self axis (principal node kind: element)
   | .kind .attribute .none => k == .attribute || (k == .element && !kids.isEmpty)  -- context.iter_attributes()
   | .kind .attribute .wild => k == .attribute || (k == .element && !kids.isEmpty)
   | .kind .attribute (.name n) => (k == .attribute && n == name) || (k == .element && kids.contains n)
@@ -571,7 +571,6 @@ def trigF18dItem (l : Leaf) : Item → Bool
     match l with
     | .anyNode => k == .document && !root                       -- node() only yields the context root document
     | .kind .namespace .none => k == .element                   -- namespace-node() yields the element's namespaces
-    | .kind .element (.name n) => k == .attribute && n == name  -- a name test on the self axis accepts attributes
     | .kind .attribute .none => k == .element && !kids.isEmpty  -- attribute tests iterate the element's attributes
     | .kind .attribute .wild => k == .element && !kids.isEmpty
     | .kind .attribute (.name n) => k == .element && kids.contains n
